@@ -1,25 +1,104 @@
-//! C24 — not built yet (stub).
+//! C24 — probe (temporary)
 use crate::proto::Driver;
 use crate::rng::Rng;
 use crate::summary::Summary;
+use crate::util::scratch;
 use crate::{Prop, Tier};
 use serde_json::{json, Value};
 
-pub struct Stub;
-pub static P: Stub = Stub;
+#[path = "httpc.rs"]
+pub mod httpc;
+use httpc::*;
 
-impl Prop for Stub {
+pub struct C24;
+pub static P: C24 = C24;
+
+fn show(tag: &str, r: &Resp) {
+  eprintln!("{tag:40} -> {:?} end={} complete={} ct={:?} body={}", r.status, r.end, r.complete, r.header("content-type"), r.body_text());
+}
+
+impl Prop for C24 {
   fn id(&self) -> &'static str {
     "C24"
   }
   fn rule(&self) -> &'static str {
-    "stub"
+    "probe"
   }
   fn count(&self, _tier: Tier) -> usize {
-    0
+    1
   }
   fn gen(&self, _rng: &mut Rng, _tier: Tier, _i: usize) -> Value {
     json!(null)
   }
-  fn run_case(&self, _drv: &mut Driver, _case: &Value, _s: &mut Summary) {}
+  fn serial(&self) -> bool {
+    true
+  }
+  fn run_case(&self, _drv: &mut Driver, _case: &Value, _s: &mut Summary) {
+    let dir = scratch();
+    let idx = dir.path().join("idx");
+    let srv = Server::start(&idx, &ServerCfg { max_body: 4096, timeout_secs: 2, ..Default::default() }).expect("server");
+    let p = srv.port;
+    let schema = json!({"doc_id_field":"_id","text_fields":[{"name":"body","tokenizer":"default","stored":true,"indexed":true}],"keyword_fields":[],"numeric_fields":[]});
+    show("GET /healthz", &simple(p, "GET", "/healthz", None, b""));
+    show("GET /nope", &simple(p, "GET", "/nope", None, b""));
+    show("GET /search", &simple(p, "GET", "/search", None, b""));
+    show("POST /healthz", &simple(p, "POST", "/healthz", None, b""));
+    let sreq = json!({"query":"rust","limit":3,"return_stored":true});
+    show("POST /search before init", &post_json(p, "/search", &sreq));
+    show("POST /search invalid before init", &simple(p, "POST", "/search", Some("application/json"), b"{\"query\":"));
+    show("POST /add invalid before init", &simple(p, "POST", "/add", None, b"{nope"));
+    show("POST /commit before init", &simple(p, "POST", "/commit", None, b""));
+    show("GET /stats before init", &simple(p, "GET", "/stats", None, b""));
+    show("POST /init bad schema", &post_json(p, "/init", &json!({"text_fields": 3})));
+    show("POST /init", &post_json(p, "/init", &schema));
+    show("POST /init again", &post_json(p, "/init", &schema));
+    show("POST /init again invalid", &post_json(p, "/init", &json!({"x":1})));
+    show("POST /add", &simple(p, "POST", "/add", Some("application/x-ndjson"), b"{\"_id\":\"1\",\"body\":\"rust search\"}\n{\"_id\":\"2\",\"body\":\"rust body\"}\n"));
+    show("POST /commit", &simple(p, "POST", "/commit", None, b""));
+    show("POST /search", &post_json(p, "/search", &sreq));
+    show("POST /search limit0", &post_json(p, "/search", &json!({"query":"rust","limit":0,"return_stored":true})));
+    let big = vec![b' '; 5000];
+    show("POST /search CL>max", &simple(p, "POST", "/search", Some("application/json"), &big));
+    show("GET /healthz CL>max", &simple(p, "POST", "/nope", Some("application/json"), &big));
+    let mut bigjson = json!({"docs":[{"_id":"9","body":"x".repeat(5000)}]}).to_string().into_bytes();
+    let h = vec![("Content-Type".to_string(), "application/json".to_string())];
+    show("POST /bulk chunked oversize", &exchange(p, &SendPlan { first: chunked_bytes("POST", "/bulk", &h, &bigjson, 1000, true), wait_ms: 5000, ..Default::default() }));
+    bigjson.push(b'\n');
+    let nd = format!("{}\n", json!({"_id":"9","body":"x".repeat(5000)}));
+    show("POST /add chunked oversize", &exchange(p, &SendPlan { first: chunked_bytes("POST", "/add", &[], nd.as_bytes(), 1000, true), wait_ms: 5000, ..Default::default() }));
+    show("POST /add chunked ok", &exchange(p, &SendPlan { first: chunked_bytes("POST", "/add", &[], b"{\"_id\":\"3\",\"body\":\"x\"}\n", 7, true), wait_ms: 5000, ..Default::default() }));
+    let cur = format!("a{}b", "é".repeat(20));
+    show("POST /search cursor panic", &post_json(p, "/search", &json!({"query":"rust","limit":3,"return_stored":true,"cursor":cur})));
+    show("POST /search leaf panic", &post_json(p, "/search", &json!({"query":"rust body:rust","limit":3,"return_stored":true})));
+    show("POST /search bad cursor", &post_json(p, "/search", &json!({"query":"rust","limit":3,"return_stored":true,"cursor":"zz"})));
+    show("POST /search no ct", &simple(p, "POST", "/search", None, sreq.to_string().as_bytes()));
+    show("POST /search text/plain", &simple(p, "POST", "/search", Some("text/plain"), sreq.to_string().as_bytes()));
+    show("POST /search missing field", &post_json(p, "/search", &json!({"query":"rust","limit":3})));
+    show("POST /add bad utf8", &simple(p, "POST", "/add", None, &[0x7b, 0xff, 0xfe, 0x7d, 0x0a]));
+    show("POST /add non-object", &simple(p, "POST", "/add", None, b"[1,2]\n"));
+    show("POST /add no id", &simple(p, "POST", "/add", None, b"{\"body\":\"x\"}\n"));
+    show("POST /add empty", &simple(p, "POST", "/add", None, b""));
+    show("POST /bulk empty docs", &post_json(p, "/bulk", &json!({"docs":[]})));
+    show("POST /delete ws id", &post_json(p, "/delete", &json!({"ids":[" a"]})));
+    show("POST /delete ok", &post_json(p, "/delete", &json!({"ids":["1"]})));
+    let body = b"{\"ids\":[\"1\"]}";
+    show("POST /delete CL too large (wait)", &exchange(p, &SendPlan { first: request_bytes("POST", "/delete", &h, body, Some(body.len() + 10)), wait_ms: 6000, ..Default::default() }));
+    show("POST /delete CL too large (halfclose)", &exchange(p, &SendPlan { first: request_bytes("POST", "/delete", &h, body, Some(body.len() + 10)), wait_ms: 6000, half_close: true, ..Default::default() }));
+    show("POST /delete CL too small", &exchange(p, &SendPlan { first: request_bytes("POST", "/delete", &h, body, Some(body.len() - 3)), wait_ms: 6000, ..Default::default() }));
+    show("POST /add chunked truncated(wait)", &exchange(p, &SendPlan { first: chunked_bytes("POST", "/add", &[], b"{\"_id\":\"3\",\"body\":\"x\"}\n", 7, false), wait_ms: 6000, ..Default::default() }));
+    show("garbage", &exchange(p, &SendPlan { first: b"\x00\x01garbage\r\n\r\n".to_vec(), wait_ms: 3000, ..Default::default() }));
+    show("bad version", &exchange(p, &SendPlan { first: b"GET /healthz HTTP/9.9\r\n\r\n".to_vec(), wait_ms: 3000, ..Default::default() }));
+    show("HEAD /healthz", &exchange(p, &SendPlan { first: request_bytes("HEAD", "/healthz", &[], b"", None), wait_ms: 3000, ..Default::default() }));
+    show("OPTIONS /search", &simple(p, "OPTIONS", "/search", None, b""));
+    show("POST /search/", &post_json(p, "/search/", &sreq));
+    show("POST //search", &post_json(p, "//search", &sreq));
+    show("POST /search?x=1", &post_json(p, "/search?x=1", &sreq));
+    show("POST /SEARCH", &post_json(p, "/SEARCH", &sreq));
+    show("GET /inspect", &simple(p, "GET", "/inspect", None, b""));
+    show("GET /stats", &simple(p, "GET", "/stats", None, b""));
+    show("POST /compact", &simple(p, "POST", "/compact", None, b""));
+    show("POST /refresh", &simple(p, "POST", "/refresh", None, b"junk"));
+    show("GET /healthz", &simple(p, "GET", "/healthz", None, b""));
+    eprintln!("alive={}", srv.alive());
+  }
 }
